@@ -48,9 +48,17 @@ pub struct Case {
     pub key_filters: Vec<(Option<usize>, Option<u32>)>,
     pub assert_origins: Vec<MOrigin>,
     pub assert_keys: Vec<MKey>,
-    /// number of providers of the directed big-ASPA pair (0 = none): two ASPAs for customer 65500
-    /// whose union has exactly this many providers
+    /// size of the provider union of the directed big-ASPA group (0 = none): several ASPA objects for
+    /// customer 65500 whose union has exactly this many providers
     pub big_aspa_union: u32,
+    /// how the big group is split: number of overlapping parts (2..=5), rotation of their processing
+    /// order, and whether a small ASPA for the same customer is processed at the very end
+    #[serde(default)]
+    pub big_parts: u8,
+    #[serde(default)]
+    pub big_rotate: u8,
+    #[serde(default)]
+    pub big_tail_small: bool,
 }
 
 fn ec_key(idx: usize) -> MKey {
@@ -118,9 +126,9 @@ fn case_strategy() -> impl Strategy<Value = Case> {
         prop::collection::vec((prop::option::weighted(0.6, 0usize..2), prop::option::weighted(0.6, prop::sample::select(vec![64496u32, 64497]))), 0..=2),
         prop::collection::vec(origin_strategy(), 0..=3),
         prop::collection::vec((0usize..3, prop::sample::select(vec![64496u32, 64499])), 0..=2),
-        prop::sample::select(vec![0u32, 0, 0, 0, 0, 0, 0, 0, 0, 0, 0, 0, 0, 0, 0, 0, 0, 0, 0, 0, 0, 0, 0, 0, 0, 0, 0, 16379, 16380, 16381]),
+        (prop::sample::select(vec![0u32, 0, 0, 0, 0, 0, 0, 0, 0, 0, 0, 0, 0, 0, 0, 0, 0, 0, 0, 0, 0, 0, 0, 0, 16379, 16380, 16381, 16381, 20000, 33000]), 2u8..=5, 0u8..5, any::<bool>()),
     )
-        .prop_map(|((limit_v4, limit_v6, unsafe_vrps, bgpsec, aspa), points, filters, key_filters, assert_origins, assert_keys, big)| Case {
+        .prop_map(|((limit_v4, limit_v6, unsafe_vrps, bgpsec, aspa), points, filters, key_filters, assert_origins, assert_keys, (big, big_parts, big_rotate, big_tail_small))| Case {
             limit_v4,
             limit_v6,
             unsafe_vrps,
@@ -132,6 +140,9 @@ fn case_strategy() -> impl Strategy<Value = Case> {
             assert_origins,
             assert_keys: assert_keys.into_iter().map(|(k, asn)| MKey { asn, ..ec_key(k) }).collect(),
             big_aspa_union: big,
+            big_parts,
+            big_rotate,
+            big_tail_small,
         })
 }
 
@@ -171,12 +182,30 @@ fn slurm(case: &Case) -> String {
     json!({"slurmVersion": 1, "validationOutputFilters": {"prefixFilters": pf, "bgpsecFilters": kf}, "locallyAddedAssertions": {"prefixAssertions": pa, "bgpsecAssertions": ka}}).to_string()
 }
 
-fn big_aspas(n: u32) -> (MAspa, MAspa) {
-    // two overlapping halves whose union has exactly n providers
-    let all: Vec<u32> = (0..n).map(|i| 100_000 + i).collect();
-    let a: Vec<u32> = all.iter().cloned().take((n as usize * 2) / 3).collect();
-    let b: Vec<u32> = all.iter().cloned().skip(n as usize / 3).collect();
-    (MAspa::new(65500, a), MAspa::new(65500, b))
+/// The ASPA objects of the big group in processing order: `parts` overlapping windows over n
+/// providers (each window well below the limit on its own when parts >= 2), rotated, optionally
+/// followed by a small ASPA (providers inside the union) for the same customer.
+fn big_aspas(case: &Case) -> Vec<MAspa> {
+    let n = case.big_aspa_union as usize;
+    if n == 0 {
+        return vec![];
+    }
+    // every single object stays well below the per-object limit of the ASPA decoder
+    let parts = (case.big_parts as usize).clamp(2, 5).max(n.div_ceil(9000));
+    let all: Vec<u32> = (0..n as u32).map(|i| 100_000 + i).collect();
+    let step = n.div_ceil(parts);
+    let mut res: Vec<MAspa> = (0..parts)
+        .map(|p| {
+            let lo = (p * step).saturating_sub(step / 3);
+            let hi = ((p + 1) * step).min(n);
+            MAspa::new(65500, all[lo.min(n)..hi].iter().cloned())
+        })
+        .collect();
+    res.rotate_left(case.big_rotate as usize % parts);
+    if case.big_tail_small {
+        res.push(MAspa::new(65500, all[..5.min(n)].iter().cloned()));
+    }
+    res
 }
 
 struct Model {
@@ -215,10 +244,8 @@ fn model(case: &Case) -> Model {
     let mut aspas: BTreeMap<u32, BTreeSet<u32>> = BTreeMap::new();
     let mut seen_origins = 0usize;
     let mut points: Vec<Point> = case.points.clone();
-    if case.big_aspa_union > 0 {
-        let (a, b) = big_aspas(case.big_aspa_union);
+    for a in big_aspas(case) {
         points.push(Point { origins: vec![], aspas: vec![a], routers: vec![], rejected: None });
-        points.push(Point { origins: vec![], aspas: vec![b], routers: vec![], rejected: None });
     }
     for p in &points {
         if p.rejected.is_some() {
@@ -335,10 +362,8 @@ fn prop(case: &Case, info: &mut CaseInfo) -> Verdict {
         let report = ValidationReport::new(&config);
         let mut metrics = Metrics::new();
         let mut points: Vec<Point> = case.points.clone();
-        if case.big_aspa_union > 0 {
-            let (a, b) = big_aspas(case.big_aspa_union);
+        for a in big_aspas(case) {
             points.push(Point { origins: vec![], aspas: vec![a], routers: vec![], rejected: None });
-            points.push(Point { origins: vec![], aspas: vec![b], routers: vec![], rejected: None });
         }
         let whole = Res { v4: vec![(Ipv4Addr::new(0, 0, 0, 0), 0)], v6: vec![(Ipv6Addr::from(0u128), 0)], asn: vec![(0, u32::MAX)] };
         for (idx, p) in points.iter().enumerate() {
@@ -394,7 +419,7 @@ fn prop(case: &Case, info: &mut CaseInfo) -> Verdict {
 }
 
 pub fn run(ctx: &Ctx, rep: &mut Report, replay: Option<&serde_json::Value>) {
-    rep.rule("validated payload injected through routinator's own ValidationReport interface: 1-4 publication points (one TAL each) with ROA content drawn from a small pool of related prefixes (so duplicates across points/TALs, covering/covered relations and lengths at limit-1/limit/limit+1 are common), ASPAs for 2 customers with overlapping provider sets, router certificates (real, issued and decoded) with 1-3 ASNs; 25% of points are rejected with generated resource blocks (sometimes only 0.0.0.0/0); SLURM prefix filters (prefix and/or ASN), BGPsec filters (SKI and/or ASN), prefix and BGPsec assertions; limit-v4/v6-len, unsafe-vrps, enable-bgpsec/aspa varied; 1 in 10 cases adds two ASPAs whose provider union is 16379/16380/16381; oracle = set algebra from the manual (validated - too long - unsafe(reject) - SLURM-filtered + assertions, each distinct item once; ASPA union per customer, dropped above 16380); non-trivial = >=2 operators act in the case; distinct by serialised case");
+    rep.rule("validated payload injected through routinator's own ValidationReport interface: 1-4 publication points (one TAL each) with ROA content drawn from a small pool of related prefixes (so duplicates across points/TALs, covering/covered relations and lengths at limit-1/limit/limit+1 are common), ASPAs for 2 customers with overlapping provider sets, router certificates (real, issued and decoded) with 1-3 ASNs; 25% of points are rejected with generated resource blocks (sometimes only 0.0.0.0/0); SLURM prefix filters (prefix and/or ASN), BGPsec filters (SKI and/or ASN), prefix and BGPsec assertions; limit-v4/v6-len, unsafe-vrps, enable-bgpsec/aspa varied; 1 in 5 cases adds a group of 2-5 overlapping ASPA objects for one customer (processing order rotated, optionally followed by a small ASPA for the same customer) whose provider union is 16379/16380/16381/20000/33000; oracle = set algebra from the manual (validated - too long - unsafe(reject) - SLURM-filtered + assertions, each distinct item once; ASPA union per customer, dropped above 16380); non-trivial = >=2 operators act in the case; distinct by serialised case");
     rep.assume("object content comes from signed-and-decoded ROAs/ASPAs/router certificates; certificate-level validation is the subject of C01/C02, not of this check");
     if let Some(v) = replay {
         let t: Tagged<Case> = serde_json::from_value(v.clone()).expect("replay");
